@@ -288,8 +288,80 @@ def r2_fix_points_order(repo: Repo, rep):
             rep.check(R, _is_name_selection(ret) == "self", fi.site(p.ret_node), fi.fq,
                       "selection by list(self.input_space.keys())", dump(ret), dump(ret))
         else:
-            rep.undecided(R, fi.site(p.ret_node), fi.fq, "return is the input or a name-based selection of it", dump(ret))
+            _fix_order_table(rep, R, fi, p)
     rep.check(R, raises >= 1, fi.site(), fi.fq, "a differing key set raises", f"{raises} raising path(s) guarded by a key-set comparison", "no raise")
+
+
+class _PointsV:
+    """a Points value of the table model: column blocks (by variable name) and the labelling space"""
+
+    def __init__(self, cols, space):
+        self.cols, self.space = list(cols), space
+
+
+def _fix_order_table(rep, R, fi, p):
+    """Partial evaluation of the sanitiser on a table model: points whose three variables (of different widths) come in each of the
+    six orders must leave as the columns of (a, b, c) — block k of the result is the variable k of input_space — labelled with input_space."""
+    import itertools
+    from collections import OrderedDict
+    from ..absdom.listeval import Evaluator, NotEval, Vec1, UNKNOWN
+    from ..absdom.poly import RF
+    pname = fi.params[1]
+    dims = {"a": 1, "b": 2, "c": 3}
+    target = OrderedDict((k, dims[k]) for k in ("a", "b", "c"))
+    bad, undecided = [], None
+    for perm in itertools.permutations("abc"):
+        if list(perm) == ["a", "b", "c"]:
+            continue
+
+        def resolve(e, ev, f):
+            t = dump(e)
+            if t == "self.input_space":
+                return OrderedDict(target)
+            if isinstance(e, ast.Attribute):
+                try:
+                    base = ev.ev(e.value, f)
+                except NotEval:
+                    return None
+                if isinstance(base, _PointsV):
+                    if e.attr == "space":
+                        return base.space
+                    if e.attr in ("as_tensor", "_t"):
+                        return Vec1(RF.atom(c) for c in base.cols)
+            if isinstance(e, ast.Subscript):
+                try:
+                    base = ev.ev(e.value, f)
+                except NotEval:
+                    return None
+                if isinstance(base, _PointsV):
+                    sl = e.slice.elts[-1] if isinstance(e.slice, ast.Tuple) else e.slice
+                    names = ev.ev(sl, f)
+                    if isinstance(names, (list, tuple)) and all(isinstance(n, str) and n in base.space for n in names):
+                        return _PointsV(list(names), OrderedDict((n, base.space[n]) for n in names))
+            return None
+
+        def on_call(e, name, args, kws, ev, f):
+            if name in ("Points", "Points.from_tensor") and args and len(args) == 2 and isinstance(args[0], list) and isinstance(args[1], dict):
+                return _PointsV([repr(c) for c in args[0]], args[1])
+            if name == "torch.split" and args and isinstance(args[0], Vec1) and len(args) >= 2 and isinstance(args[1], (list, tuple)):
+                cols = [repr(c) for c in args[0]]
+                if len(cols) == len(args[1]) and all(dims.get(c) == w for c, w in zip(cols, args[1])):
+                    return [Vec1([RF.atom(c)]) for c in cols]
+                raise NotEval("split sizes are not the block widths")
+            return None
+        src = _PointsV(list(perm), OrderedDict((k, dims[k]) for k in perm))
+        fr = Evaluator(resolve, on_call).run(fi.node.body, {pname: src})
+        got = fr.ret
+        if not isinstance(got, _PointsV):
+            undecided = f"order {perm}: result {got!r}"[:100]
+            break
+        if got.cols != ["a", "b", "c"] or list(got.space.keys()) != ["a", "b", "c"]:
+            bad.append(f"points given as {''.join(perm)} leave with the columns of {''.join(got.cols)} labelled {''.join(got.space.keys())}")
+    if undecided:
+        rep.undecided(R, fi.site(p.ret_node), fi.fq, "return is the input or a name-based selection of it", undecided)
+    else:
+        rep.check(R, not bad, fi.site(p.ret_node), fi.fq, "for every order of three variables the result holds the columns of input_space's variables in input_space's order",
+                  "; ".join(bad[:2]), "; ".join(bad[:2]))
 
 
 def r3_compositions(repo: Repo, rep):
